@@ -756,3 +756,113 @@ Proof.
         unfold ty in H1. destruct (c_g R !! mu_name c n) as [j|] eqn:E; [|done]. simpl in H1.
         apply elem_of_inputs. exists j. split; [done|congruence].
 Qed.
+
+(* ---------- the result is lint-clean ---------- *)
+Lemma model_inv C nodes fo R μ : lint_clean C → closed (c_g C) → ternary C nodes fo = Ok (R, μ) →
+  c_bbs C = ∅ ∧ c_bbs R = ∅ ∧ μ = mapping (c_g C) ∧
+  (∀ k j, c_g C !! k = Some j → c_g R !! k = Some j) ∧
+  (∀ n i, c_g C !! n = Some i → comp_ok (c_g R) (mu_name (c_g C)) n i ∧ arity_ok i ∧ has_dot n = false) ∧
+  (∀ k j, c_g R !! k = Some j → k ∈ dom (c_g C) ∨ (∃ n, n ∈ dom (c_g C) ∧ k = mu_name (c_g C) n) ∨ helper_ok (c_g C) k j).
+Proof.
+  intros Hl Hcl H. unfold ternary in H. rewrite gen_ttab_ok in H.
+  apply ternary_ok_inv in H as (Hb & Ho & -> & HbR & _ & Hrun).
+  destruct (lint_facts C Hl Hb) as [Hnd Har]. set (c := c_g C) in *.
+  unfold orders_ok in Ho. apply andb_true_iff in Ho as [Ho Hfo]. apply andb_true_iff in Ho as [Hnodup Hset].
+  apply bool_decide_eq_true in Hnodup, Hset.
+  assert (Hin : ∀ n, n ∈ dom c → n ∈ nodes) by (intros n Hn; rewrite <- Hset in Hn; by apply elem_of_list_to_set in Hn).
+  assert (Hnodes : ∀ n i, c !! n = Some i → list_to_set (fo n) = n_fi i ∧ (∀ p, p ∈ n_fi i → p ∈ dom c) ∧ arity_ok i).
+  { intros n i Hi. split; [|split; [intros p Hp; eapply Hcl; eauto|by eapply Har]].
+    rewrite forallb_forall in Hfo. assert (n ∈ nodes) as Hn%elem_of_list_In by (apply Hin, elem_of_dom; eauto).
+    specialize (Hfo n Hn). apply andb_true_iff in Hfo as [_ Hf]. apply bool_decide_eq_true in Hf.
+    rewrite Hf. unfold fanin. by rewrite Hi. }
+  assert (Hall : ∀ n, n ∈ nodes → n ∈ dom c ∧ n ∉ ([] : list string)).
+  { intros n Hn. split; [rewrite <- Hset; by apply elem_of_list_to_set|apply not_elem_of_nil]. }
+  destruct (inv_run c fo Hnd Hnodes nodes c [] (c_g R) (inv_init c) Hnodup Hall Hrun) as (HA & HB & _ & HD).
+  split; [done|]. split; [by rewrite HbR|]. split; [done|]. split; [done|]. split.
+  - intros n i Hi. split; [|split; [by eapply Har|apply Hnd, elem_of_dom; eauto]].
+    apply HB; [|done]. rewrite app_nil_r. apply elem_of_list_In. apply (proj1 (in_rev nodes n)). apply elem_of_list_In.
+    apply Hin, elem_of_dom. eauto.
+  - intros k j Hj. destruct (HD k j Hj) as [?|[(n & ? & ? & _)|?]]; eauto.
+Qed.
+
+(* what lint asks of one node (default flags), when the node is not a blackbox output *)
+Definition entry_ok (k : string) (i : ninfo) : Prop :=
+  n_ty i ∈ doc_supported ∧ has_dot k = false ∧ (n_ty i ∈ doc_no_fanin → n_fi i = ∅) ∧ n_ty i ≠ BbOut ∧
+  (n_ty i ∈ doc_single → size (n_fi i) ≤ 1) ∧ (n_ty i ∈ (doc_single ++ doc_multi)%list → n_fi i ≠ ∅).
+Lemma entry_ok_multi k i : has_dot k = false → n_ty i = And ∨ n_ty i = Or ∨ n_ty i = Nor → n_fi i ≠ ∅ → entry_ok k i.
+Proof.
+  intros Hd Ht Hf. unfold entry_ok, doc_supported, doc_no_fanin, doc_single, doc_multi.
+  destruct Ht as [-> | [-> | ->]]; (split; [set_solver|]); (split; [done|]); (split; [set_solver|]); (split; [done|]); (split; [set_solver|done]).
+Qed.
+Lemma entry_ok_single k i : has_dot k = false → n_ty i = Buf ∨ n_ty i = Not → size (n_fi i) = 1 → entry_ok k i.
+Proof.
+  intros Hd Ht Hf. unfold entry_ok, doc_supported, doc_no_fanin, doc_single, doc_multi.
+  assert (n_fi i ≠ ∅) by (intros E; rewrite E, size_empty in Hf; done).
+  destruct Ht as [-> | ->]; (split; [set_solver|]); (split; [done|]); (split; [set_solver|]); (split; [done|]); (split; [intros _; lia|done]).
+Qed.
+Lemma entry_ok_zero k i : has_dot k = false → n_ty i = C0 ∨ n_ty i = Input → n_fi i = ∅ → entry_ok k i.
+Proof.
+  intros Hd Ht Hf. unfold entry_ok, doc_supported, doc_no_fanin, doc_single, doc_multi.
+  destruct Ht as [-> | ->]; (split; [set_solver|]); (split; [done|]); (split; [done|]); (split; [done|]); (split; [set_solver|set_solver]).
+Qed.
+Lemma entry_ok_not_violates C k i : c_bbs C = ∅ → entry_ok k i → ¬ node_violates C default_flags k i.
+Proof.
+  intros Hb (H1 & H2 & H3 & H4 & H5 & H6) [H|[[H _]|[[H H']|[[H _]|[[H H']|[(_ & H & H')|[[H _]|[H _]]]]]]]].
+  - done.
+  - congruence.
+  - by apply H3 in H.
+  - done.
+  - apply H5 in H. lia.
+  - by apply H6 in H.
+  - discriminate H.
+  - discriminate H.
+Qed.
+
+Theorem model_lint C nodes fo R μ : lint_clean C → closed (c_g C) → ternary C nodes fo = Ok (R, μ) → lint_clean R.
+Proof.
+  intros Hl Hcl H. destruct (model_inv C nodes fo R μ Hl Hcl H) as (Hb & HbR & _ & HA & HB & HD).
+  assert (Hnv : ¬ violates C default_flags) by (apply (lint_ok_iff gen_tables gen_tables_ok); exact Hl).
+  apply (lint_ok_iff gen_tables gen_tables_ok). intros [(k & j & Hj & Hv)|(inst & d & Hd & _)]; [|by rewrite HbR in Hd].
+  destruct (HD k j Hj) as [Hk|[(n & Hn & ->)|Hh]].
+  - (* a node of c: the same entry, so the same verdict as in C *)
+    apply elem_of_dom in Hk as [i Hi]. rewrite (HA k i Hi) in Hj. injection Hj as <-.
+    destruct (HB k i Hi) as (Hc & _ & Hdot).
+    assert (Hbb : n_ty i ≠ BbOut) by (intros E; unfold comp_ok in Hc; by rewrite E in Hc).
+    apply Hnv. left. exists k, i. split; [done|].
+    destruct Hv as [Hv|[[Hv _]|[Hv|[[Hv _]|[Hv|[Hv|[Hv|[Hv _]]]]]]]].
+    + by left.
+    + congruence.
+    + right. right. by left.
+    + done.
+    + do 4 right. by left.
+    + do 5 right. by left.
+    + do 6 right. by left.
+    + discriminate Hv.
+  - (* a companion *)
+    apply elem_of_dom in Hn as [i Hi]. destruct (HB n i Hi) as (Hc & Har & Hdot).
+    set (c := c_g C) in *. set (m := mu_name c) in *.
+    assert (Hd : has_dot (m n) = false) by (apply uid_in_no_dot; by rewrite has_dot_app, Hdot).
+    assert (Hty : ty (c_g R) (m n) = Some (n_ty j)) by (unfold ty; by rewrite Hj).
+    assert (Hfa : fanin (c_g R) (m n) = n_fi j) by (unfold fanin; by rewrite Hj).
+    refine (entry_ok_not_violates R _ j HbR _ Hv).
+    assert (Hctl : ∀ lit, ctl_gadget (c_g R) m lit n (n_fi i) → entry_ok (m n) j).
+    { intros lit (H1 & x & Hx & _). rewrite Hty in H1. rewrite Hfa in Hx. apply entry_ok_multi; [done|left; congruence|set_solver]. }
+    assert (Hsingle : set_Exists (λ p, n_fi i = {[p]} ∧ node_is (c_g R) (m n) Buf {[m p]}) (n_fi i) → entry_ok (m n) j).
+    { intros (p & _ & _ & [H1 H2]). rewrite Hty in H1. rewrite Hfa in H2. apply entry_ok_single; [done|left; congruence|].
+      rewrite H2. apply size_singleton. }
+    assert (Hpar : n_fi i ≠ ∅ ∧ node_is (c_g R) (m n) Or (set_map m (n_fi i)) → entry_ok (m n) j).
+    { intros [Hne [H1 H2]]. rewrite Hty in H1. rewrite Hfa in H2. apply entry_ok_multi; [done|right; left; congruence|].
+      rewrite H2. apply set_choose_L in Hne as [p Hp]. apply (ne_empty_elem _ (m p)). apply elem_of_map. eauto. }
+    assert (Hzero : ∀ g, g = C0 ∨ g = Input → node_is (c_g R) (m n) g ∅ → entry_ok (m n) j).
+    { intros g Hg [H1 H2]. rewrite Hty in H1. rewrite Hfa in H2. apply entry_ok_zero; [done| |done].
+      destruct Hg as [-> | ->]; [left|right]; congruence. }
+    unfold comp_ok in Hc. destruct (n_ty i); try done; eauto.
+  - (* a helper *)
+    destruct Hh as (_ & Hdot & _ & Hne & Ht).
+    refine (entry_ok_not_violates R _ j HbR _ Hv).
+    destruct Ht as [E|[E|[E|[E Hs]]]].
+    + apply entry_ok_multi; auto.
+    + apply entry_ok_multi; auto.
+    + apply entry_ok_multi; auto.
+    + apply entry_ok_single; auto.
+Qed.
